@@ -4,7 +4,7 @@ from props import common, mix, tim
 
 THM = "NextestModel.Thm.C12"
 GEN = ["tables"]
-GEN_GROUPS = ["termchild", "delayloop", "drainloop", "mainloop"]
+GEN_GROUPS = ["termchild", "delayloop", "drainloop", "mainloop", "respond"]
 TRUSTED = ["model: Model/Unit (pause/resume of every timer each wait loop owns; illegal transitions are Act.panic exactly where StopwatchStart / PausableSleep panic) and Model/Dispatcher (debouncing)",
            "SIGSTOP semantics, the <= 100 ms wait for acknowledgements and the unbiased select!/StreamMap order are the runtime's: the model treats the order of simultaneously pending requests as a choice (all orders are quantified over), the end-to-end family samples it"]
 ASSUMPTIONS = ["PARTIAL: `results unchanged` is proved per request (stop/continue alter pause flags only) and observed end-to-end, not as a trace-erasure theorem; the leak-timeout sleep is not pausable in the code (documented there) and in the model"]
@@ -17,6 +17,6 @@ def run(seed, tier, replay=None):
     result["rule"] = t["rule"]; result["samples"] += t["samples"]; result["dist"].update(t["dist"])
     for k in ("violations", "broken"): result[k] += t[k]
     result["impl_failures"] = t["impl_failures"]
-    return mix.merge(result, tim.run_family("stop", seed, tier, 18, 90, jobs=8))
+    return mix.merge(result, tim.run_family("stop", seed, tier, 19, 90, jobs=8))
 
 KNOWN_MATCHERS = {}
